@@ -39,12 +39,12 @@ func planFor(prop, tier string) plan {
 		if thorough {
 			return plan{batch: 400, secs: secs, detSample: 48, watchdog: "180s"}
 		}
-		return plan{runs: q(16000), batch: 250, detSample: 6, watchdog: "60s"}
+		return plan{runs: q(24000), batch: 250, detSample: 6, watchdog: "60s"}
 	case "C15":
 		if thorough {
 			return plan{batch: 1, secs: secs, detSample: 48, watchdog: "180s"}
 		}
-		return plan{runs: q(2400), batch: 1, detSample: 6, watchdog: "60s"}
+		return plan{runs: q(20000), batch: 1, detSample: 6, watchdog: "60s"}
 	case "C16":
 		if thorough {
 			return plan{batch: 16, race: true, secs: secs, extraSecs: secs / 2, detSample: 48, watchdog: "180s"}
@@ -54,7 +54,7 @@ func planFor(prop, tier string) plan {
 		if thorough {
 			return plan{batch: 100, secs: secs, detSample: 48, watchdog: "180s"}
 		}
-		return plan{runs: q(1600), batch: 50, detSample: 6, watchdog: "60s"}
+		return plan{runs: q(16000), batch: 100, detSample: 6, watchdog: "60s"}
 	}
 	return plan{}
 }
